@@ -505,6 +505,9 @@ func TestCheck(t *testing.T) {
 		r.Bucket("pair:"+k, v)
 	}
 
+	binaryOrderMonitor(r)
+	r.Require("binary-order_answers_from_first_configured_list", 2)
+	r.Require("binary-order_answers_from_first_configured_list_ids_not_alphabetical", 1)
 	r.Require("worlds", int64(nWorlds))
 	r.Require("configs", int64(nWorlds*8))
 	for _, s := range shapes {
